@@ -115,6 +115,19 @@ class LoopMixin:
         if spec is None:
             raise Unsupported(f"loop at line {s.lineno} in {self.fn_stack[-1].key} needs an invariant")
         # symbolic iteration
+        if isinstance(itv, VAtom) and isinstance(itv.kind, Abstract) and "__iter__" in itv.kind.attrs:
+            ek = itv.kind.attrs["__iter__"]            # element kind; iteration = arbitrary enumeration of a set
+            f = z3.Function(f"{itv.kind.name}.__iter__", itv.kind.sort(), SetOf(ek).sort())
+            sset = VSet(ek, f(itv.t))
+            st.assume(bigop.fin(sset.t))
+            return self.cut_set_loop(st, s, spec, ordinal, sset, lambda x: x)
+        if isinstance(itv, VComp) and itv.over[0] == "seq" and itv.elem is not None:
+            base, ivar = itv.over[1], itv.over[2]
+            if not (hasattr(itv.elem, "t") and itv.elem.t.eq(base.at(ivar).t)):
+                raise Unsupported("loop over a mapping comprehension")
+            flt = itv.dom
+            return self.cut_seq_loop(st, s, spec, ordinal, base, lambda i, x: x,
+                                     keep=lambda i: z3.substitute(flt, (ivar, i)))
         if isinstance(itv, VSet):
             return self.cut_set_loop(st, s, spec, ordinal, itv, lambda x: x)
         if isinstance(itv, VMap):
@@ -179,6 +192,8 @@ class LoopMixin:
                     return vv
                 raise Unsupported(f"cannot infer kind to havoc '{hint}' ({vv!r}); declare it in the loop spec")
         new = kind.fresh(self.ctx, hint)
+        if isinstance(new, VMap) and isinstance(v, VMap):
+            new.default = v.default
         for f in kind.wf(new):
             st.assume(f)
         return new
@@ -210,11 +225,14 @@ class LoopMixin:
         entry = st.fork()
         entry_view = View(entry, entry.env)
         args_view = self.entry_views[-1] if self.entry_views else None
+        stack = st.ghost.get("loop_stack", ())
+        outer_view = stack[-1] if stack else None
 
         def inv_view(state, ghost):
             extra = dict(make_extra(state, ghost))
             extra["entry"] = entry_view
             extra["args"] = args_view
+            extra["outer"] = outer_view
             return View(state, state.env, extra)
 
         # establish
@@ -268,6 +286,8 @@ class LoopMixin:
             results = []
             changed = set()
             iter_state = head.fork()
+            import types
+            iter_state.ghost["loop_stack"] = tuple(stack) + (types.SimpleNamespace(**make_extra(iter_state, ghost)),)
             for s2, oc, g2 in run_iteration(iter_state, ghost):
                 # frame inference: only paths that flow back to the loop head carry changes
                 for key, old in (snap.items() if isinstance(oc, (Normal, Continue)) else ()):
@@ -301,13 +321,22 @@ class LoopMixin:
         # exit path(s)
         ex = head.fork()
         r = exit_assume(ex, ghost)
+        exits = []
         if r and isinstance(r[0], tuple):
-            out.extend(r)                      # [(state, outcome)] computed by the loop kind
+            exits = list(r)                    # [(state, outcome)] computed by the loop kind
         else:
             for f in r:
                 ex.assume(f)
             if self.feasible(ex):
-                out.append((ex, NORMAL))
+                exits = [(ex, NORMAL)]
+        if spec.post is not None:
+            for s_ex, oc in exits:
+                if isinstance(oc, Normal):
+                    Lx = inv_view(s_ex, ghost)
+                    for label, f in spec.post(Lx):
+                        self.ctx.oblige(f"{tag}/exit-lemma:{label}", s_ex, f, "loop-exit-lemma", s.lineno)
+                        s_ex.assume(f)
+        out.extend(exits)
         return out
 
     def cut_set_loop(self, st, s, spec, ordinal, sset, mk_elem, extra_assume=None):
@@ -348,7 +377,7 @@ class LoopMixin:
 
         return self._cut(st, s, spec, ordinal, run_iteration, make_extra, exit_assume)
 
-    def cut_seq_loop(self, st, s, spec, ordinal, seq, mk_elem):
+    def cut_seq_loop(self, st, s, spec, ordinal, seq, mk_elem, keep=None):
         n = seq.length()
 
         def make_extra(state, ghost):
@@ -366,6 +395,13 @@ class LoopMixin:
             state.assume(i < n)
             g2 = {"i": i + 1, "first": False}
             res = []
+            if keep is not None:
+                kept, dropped = self.split(state, keep(i))
+                if dropped:
+                    res.append((dropped, Continue(), g2))      # filtered out by the comprehension
+                if not kept:
+                    return res
+                state = kept
             for s2, oc in self.assign(state, s.target, mk_elem(i, seq.at(i))):
                 if not isinstance(oc, Normal):
                     res.append((s2, oc, g2))
